@@ -12,7 +12,12 @@ coq_makefile -f _CoqProject -o Makefile > /dev/null || exit 1
 timeout 3000 make -j16 2>&1 | grep -v '^make\[' > build.log
 rc=${PIPESTATUS[0]}
 if [ $rc -ne 0 ]; then echo "COQ BUILD FAILED"; grep -v '^COQ\|^CoqMakefile' build.log | tail -40; exit 1; fi
-# property theorems: what Print Assumptions said
-grep -A3 -h 'Closed under\|Axioms:' build.log > assumptions.log 2>/dev/null
+# property theorems: what Print Assumptions says under each of them (Props files are tiny: recompile them to capture it)
+mkdir -p assumptions; rm -f assumptions/*.log
+for f in theories/Props/C*.v; do
+  [ -f "$f" ] || continue
+  id=$(basename "$f" .v)
+  timeout 600 coqc -Q theories HP "$f" > "assumptions/$id.log" 2>&1 || { echo "COQ BUILD FAILED ($f)"; tail -20 "assumptions/$id.log"; exit 1; }
+done
 ./extraction/build.sh || exit 1
 echo "setup ok"
